@@ -501,6 +501,31 @@ fn col_clone_from_into_empty() {
     check_clone_from(2, 0, false);
 }
 
+/// equal cells but different entity identifiers in the rows: not equal (C16: "hold the same live
+/// identifiers with the same component values")
+#[kani::proof]
+#[kani::unwind(6)]
+fn col_component_eq_compares_identifiers() {
+    let mut alloc_a = entity::Allocator::<R>::new();
+    let mut alloc_b = entity::Allocator::<R>::new();
+    let mut a = arch(0b010);
+    let mut b = arch(0b010);
+    let v: [u8; 2] = kani::any();
+    unsafe {
+        a.push(entity!(S(v[0])), &mut alloc_a);
+        a.push(entity!(S(v[1])), &mut alloc_a);
+        // b: same cells, but its rows belong to identifiers (1, 0) and (2, 0)
+        b.push(entity!(S(0)), &mut alloc_b);
+        b.push(entity!(S(v[0])), &mut alloc_b);
+        b.push(entity!(S(v[1])), &mut alloc_b);
+        b.remove_row_unchecked(0, &mut alloc_b);
+    }
+    // after the swap-remove b's rows are [(2,0): v1, (1,0): v0]
+    assert!(!unsafe { a.component_eq(&b) }, "C16: tables whose rows carry different identifiers are not equal");
+    assert!(!unsafe { b.component_eq(&a) }, "C16: symmetric");
+    assert!(unsafe { a.component_eq(&a) } && unsafe { b.component_eq(&b) }, "C16: reflexive");
+}
+
 /// clone_from between tables whose columns have different capacities, followed by growth of the
 /// destination: the destination must keep its OWN capacity bookkeeping (C05: no write past the
 /// block, no release with a foreign size)
